@@ -284,6 +284,15 @@ def regenerate():
     return gaps, summary
 
 
+ALL_TRANSLATORS = ["layouts", "tr_codecs", "tr_trig", "tr_consts", "tr_imports", "tr_fileapis", "tr_effects"]
+_RICH = ["layouts", "tr_codecs", "tr_trig", "tr_consts"]      # everything the rich-layer configuration is assembled from
+TRANSLATORS_OF = {
+    "C01": ["layouts"], "C06": ["layouts"], "C19": ["layouts"],
+    "C05": ["tr_trig", "layouts"], "C12": ["tr_codecs"], "C08": [],
+    "C09": ["tr_consts"], "C14": ["tr_consts"],
+    "C02": _RICH, "C03": _RICH, "C10": _RICH, "C11": _RICH, "C04": _RICH, "C07": _RICH,
+    "C13": ["tr_effects"], "C15": ["tr_fileapis"], "C16": ["tr_fileapis"], "C17": ["tr_fileapis"], "C18": ["tr_imports"],
+}
 EXTRA_TRANSLATORS = ["tr_codecs", "tr_trig", "tr_consts", "tr_imports", "tr_fileapis", "tr_effects"]  # each module exposes generate(gen_dir, build_dir, write_if_changed)
 
 
@@ -410,6 +419,9 @@ def check(prop, tier, seed):
     broken = []  # things that no longer check (not by themselves violations)
     with Lock():
         gaps, gen_summary = regenerate()
+        # only the translators this property's model is generated by matter: a construct another translator
+        # does not understand is that other property's business
+        gaps = [g for g in gaps if g[0] in TRANSLATORS_OF.get(prop, ALL_TRANSLATORS)]
         if gaps:
             broken.append({"stage": "translate", "what": "TranslatorGap", "detail": [list(map(str, g)) for g in gaps][:10]})
         lake_build(["specdump"])
